@@ -17,6 +17,57 @@ def _strip(t):
     return re.sub(r"//[^\n]*", "", t)
 
 
+ALLOC_CALL = re.compile(r"\b(yr_malloc|yr_calloc|yr_realloc|yr_strdup|yr_strndup)\s*\(")
+
+
+def _blank_comments(t):
+    """comments and string literals replaced by blanks, line structure kept"""
+    def blank(m):
+        return re.sub(r"[^\n]", " ", m.group(0))
+    t = re.sub(r"/\*.*?\*/", blank, t, flags=re.S)
+    t = re.sub(r"//[^\n]*", blank, t)
+    return re.sub(r'"(?:\\.|[^"\\\n])*"', blank, t)
+
+
+def alloc_sites(repo, sources=None):
+    """Every call of libyara's allocator in the library sources that are built: [(file, function, line, callee)].
+    mem.c (the allocator itself) is excluded; the enclosing function is the last definition header before the call
+    (yara style: return type / name / parameters, then `{` in column 0)."""
+    if sources is None:
+        from vf import build as vb
+        sources = list(vb.LIB_SOURCES)
+    out = []
+    # generated parsers/lexers: the debug information (and so the observed call site) names the .y/.l line
+    gen = {"libyara/grammar.c": "libyara/grammar.y", "libyara/hex_grammar.c": "libyara/hex_grammar.y", "libyara/re_grammar.c": "libyara/re_grammar.y",
+           "libyara/lexer.c": "libyara/lexer.l", "libyara/hex_lexer.c": "libyara/hex_lexer.l", "libyara/re_lexer.c": "libyara/re_lexer.l"}
+    for rel in sorted(gen.get(x, x) for x in sources):
+        if rel.endswith("/mem.c"):
+            continue
+        pth = os.path.join(repo, rel)
+        if not os.path.exists(pth):
+            continue
+        lines = _blank_comments(open(pth, errors="replace").read()).split("\n")
+        fn, header = "?", []
+        for i, l in enumerate(lines):
+            if l.startswith("{"):
+                h = " ".join(header)
+                m = re.findall(r"(\w+)\s*\(", h)
+                m = [x for x in m if x not in ("__attribute__", "defined", "if", "while", "for", "switch", "sizeof")]
+                if m:
+                    fn = m[0]
+                header = []
+            elif l.startswith("}") or l.strip() == "" or l.startswith("#") or l.rstrip().endswith(";"):
+                if not l.startswith((" ", "\t")) or l.strip() == "":
+                    header = []
+            elif not l.startswith((" ", "\t")) or header:
+                header.append(l)
+            if l.startswith("#define") or (i > 0 and lines[i - 1].rstrip().endswith("\\")):
+                continue          # macro bodies: the call site is where the macro is used
+            for m in ALLOC_CALL.finditer(l):
+                out.append((rel.replace("libyara/", "", 1), fn, i + 1, m.group(1)))
+    return out
+
+
 def run(repo, outdir):
     scanner = _strip(open(os.path.join(repo, "libyara/scanner.c"), errors="replace").read())
     rec = _strip(open(os.path.join(repo, "libyara/re.c"), errors="replace").read())
@@ -67,6 +118,9 @@ def run(repo, outdir):
            "def verifyStopsAtFirstError : Bool := %s" % ("true" if stops else "false"),
            "/-- re.c yr_re_fast_exec: `if (insertion_point == last) last = new_input;` inside the insertion loop -/",
            "def fastExecTailInLoop : Bool := %s" % ("true" if tail else "false"),
+           "/-- every call of libyara's allocator (yr_malloc/yr_calloc/yr_realloc/yr_strdup/yr_strndup) in the built library sources:",
+           "    (file, enclosing function, line, callee) — the fault positions the C16 scenarios are expected to reach -/",
+           "def allocSites : List (String × String × Nat × String) := [\n  %s]" % ",\n  ".join('("%s", "%s", %d, "%s")' % x for x in alloc_sites(repo)),
            "def unparsedItems : List String := [%s]" % ", ".join('"%s"' % u for u in unparsed),
            "", "end YaraModel.Gen.OomSites"]
     text = "\n".join(out) + "\n"
